@@ -314,8 +314,25 @@ impl BState {
         if self.maps[mi].h[h].is_some() {
             return Ok(self.maps[mi].h[h].as_mut().unwrap());
         }
-        // a database handle is needed for every acquisition except a clone of an existing handle
-        if self.db.is_none() && !(h == H_CLONE as usize && self.maps[mi].h[0].is_some()) {
+        // a database handle is needed for every acquisition except a clone of an existing handle.
+        // if the database handle was dropped while something of it is still alive (a map handle, an
+        // iterator), opening the directory again would create a second, independent instance over
+        // the same files; that is outside every property, so such a letter is skipped.
+        if self.db.is_none() {
+            let alive = !self.kept.is_empty() || self.maps.iter().any(|m| m.h.iter().any(|x| x.is_some()));
+            if alive {
+                if self.maps[mi].h[0].is_some() {
+                    let first = self.maps[mi].h[0].as_ref().unwrap();
+                    match guard_plain(|| first.clone_box()) {
+                        Out::Ok(x) => {
+                            self.maps[mi].h[h] = Some(x);
+                            return Ok(self.maps[mi].h[h].as_mut().unwrap());
+                        }
+                        o => return Err(format!("clone {}", o.failed().unwrap_or_default())),
+                    }
+                }
+                return Err("SKIP".into());
+            }
             self.ensure_db()?;
         }
         let m = &cfg.maps[mi];
@@ -408,6 +425,9 @@ impl BState {
                 return None;
             }
             L_DB_SYNC_ALL | L_DB_SYNC_DATA => {
+                if self.db.is_none() && (!self.kept.is_empty() || self.maps.iter().any(|m| m.h.iter().any(|x| x.is_some()))) {
+                    return None;
+                }
                 if let Err(e) = self.ensure_db() {
                     return Some(e);
                 }
@@ -423,6 +443,7 @@ impl BState {
         let n = self.models[mi].len() as u64;
         let h = match self.handle(cfg, mi, l.handle) {
             Ok(h) => h,
+            Err(e) if e == "SKIP" => return None,
             Err(e) => return Some(e),
         };
         let bad = |what: String| Some(what);
@@ -496,6 +517,7 @@ impl BState {
         let name = cfg.maps[mi].name.clone();
         let hd = match self.handle(cfg, mi, h) {
             Ok(x) => x,
+            Err(e) if e == "SKIP" => return None,
             Err(e) => return Some(e),
         };
         for k in &keys {
